@@ -45,7 +45,7 @@ rows = {}
 for path in (out, tmp):
     if not os.path.exists(path):
         continue
-    for line in open(path):
+    for line in open(path, errors="replace"):
         m = re.match(r"\| (C\d\d-[a-z0-9]+) \|", line)
         if m:
             rows[m.group(1)] = line
